@@ -42,7 +42,7 @@ class Prop(BaseProp):
             "regime)")
     budget = {"quick": 700, "thorough": 12000}
     must_see = ["reconcile_outside_kept_1e-7", "reconcile_outside_dropped_1e-5", "reconcile_different_edges",
-                "reconcile_duplicates", "dirty_call", "reconcile_false_call", "mrts_auto", "constructor_alias_checked",
+                "reconcile_duplicates", "reconcile_sorted_input", "different_edges_measure_call", "dirty_call", "reconcile_false_call", "mrts_auto", "constructor_alias_checked",
                 "readonly_calls"] + ["ep:" + e[0] for e in common.ENTRY_POINTS] + ["ep:filter_by_spike_sync"]
     arm_files = [("pyspike/spikes.py", ["reconcile_spike_trains", "reconcile_spike_trains_bi"]), ("pyspike/generic.py", None)]
     assumptions = ["times within 4 ulp of the 1e-6 tolerance boundary are not generated (the statement's tolerance is "
@@ -142,6 +142,43 @@ class Prop(BaseProp):
             again = ctx.call(reconcile_spike_trains, rout, _name="reconcile_spike_trains")
             d = common.result_equal(ps, again, rout, 0)
             ctx.expect(d is None, "reconcile:not-idempotent", "second reconcile changes the trains: %s" % d)
+        # the same on already sorted, duplicate-free trains that still have spikes outside the common interval
+        # (a fast path for "already valid" trains must not hand back or modify the caller's objects)
+        ctx.count("reconcile_sorted_input")
+        sin = [ps.SpikeTrain(np.array(sorted(set(list(s) + list(out))), dtype=float), e)
+               for s, e, out in zip(case["trains"], case["rec_edges"], case["rec_outside"])]
+        sout = ctx.call(reconcile_spike_trains, sin, _name="reconcile_spike_trains(sorted)")
+        if isinstance(sout, list) and len(sout) == len(sin):
+            for q, (a, b) in enumerate(zip(sin, sout)):
+                ctx.expect(b is not a and not np.shares_memory(np.asarray(a.spikes), np.asarray(b.spikes)), "reconcile:returns-input-object",
+                           "sorted input train %d is returned / aliased" % q)
+                want = [float(t) for t in np.asarray(a.spikes).tolist() if t0 - EPS < t < t1 + EPS]
+                ctx.expect(np.asarray(b.spikes, dtype=float).tolist() == want and b.t_start == t0 and b.t_end == t1, "reconcile:spike-set",
+                           "sorted input train %d: got %s on [%r,%r], expected %s on [%r,%r]" % (q, common.short(np.asarray(b.spikes).tolist()), b.t_start, b.t_end, common.short(want), t0, t1))
+        # every measure reconciles by default: trains with different edges give the result of the reconciled list.
+        # (one train carries the full interval so that every spike lies inside the common interval: measures on trains
+        # with spikes outside their edges are outside every statement)
+        eds = [list(e) for e in case["rec_edges"]]
+        eds[0] = [ts, te]
+        if len({tuple(e) for e in eds}) > 1:
+            ctx.count("different_edges_measure_call")
+            ein = [ps.SpikeTrain(np.array(s, dtype=float), e) for s, e in zip(case["dirty"], eds)]
+            kwc = case["kw"]
+            for name in case["entry"][:3]:
+                _, form, kws, _iv = [e for e in common.ENTRY_POINTS if e[0] == name][0]
+                fn = getattr(ps, name)
+                kw = {q: kwc[q] for q in kws}
+                if form == "bi" or (form == "any" and len(ein) == 2):
+                    a_raw = (ein[0], ein[1])
+                    a_rec = tuple(ctx.call(reconcile_spike_trains, [ein[0], ein[1]], _name="reconcile_spike_trains"))
+                else:
+                    a_raw = (ein,)
+                    a_rec = (ctx.call(reconcile_spike_trains, ein, _name="reconcile_spike_trains"),)
+                r_raw = ctx.call(fn, *a_raw, **kw)
+                r_rec = ctx.call(fn, *a_rec, Reconcile=False, **kw)
+                d = common.result_equal(ps, r_raw, r_rec)
+                ctx.expect(d is None, "different-edges:result!=reconciled-list:" + name,
+                           "%s on trains with different edges differs from the same call on the reconciled list (Reconcile=False): %s" % (name, d))
 
         # ---- (b) measures on dirty vs clean input; default vs Reconcile=False
         clean = ctx.trains(case)
